@@ -97,6 +97,12 @@ theorem ten_pow_300_big : (1000 : ℝ) ≤ 10 ^ 300 := by
 theorem inRange_of_abs_le_1000 {x : ℝ} (h : |x| ≤ 1000) : InRange (F := F) x :=
   inRange_of_le (le_trans h ten_pow_300_big)
 
+theorem inRange_of_abs_le_2p60 {x : ℝ} (h : |x| ≤ 2 ^ 60) : InRange (F := F) x := by
+  apply inRange_of_le
+  calc |x| ≤ 2 ^ 60 := h
+    _ ≤ 10 ^ 60 := by gcongr; norm_num
+    _ ≤ 10 ^ 300 := pow_le_pow_right₀ (by norm_num) (by norm_num)
+
 theorem qp_spec : Fin (qp : F) ∧ val (qp : F) = piV F / 2 := by
   have hp := piV_gt3 (F := F); have hl := piV_lt4 (F := F)
   have h := fdiv_spec (F := F) fin_pi fin_two (by rw [val_two]; norm_num)
